@@ -55,6 +55,12 @@ CHECKS = {
  "C15": ("exploration", "§9 C15",
    "Composite controllers with a customize hook whose rules are carried by the parent (label selectors incl. empty and expressions, namespace only, names only, both, invalid mixes, several rules per resource, foreign namespace) over related ConfigMaps, Secrets and cluster-scoped objects in three namespaces; related objects are edited, relabelled, deleted and created, rule sets replaced, customize calls fail, caches lag, and in a third of the runs the clock passes the 20-minute answer cache. Oracle: the related map of every sync/finalize request equals the selection computed from the parent's rules and the reconstructed cache views (shown objects byte-equal to the server version and selected in some view; objects selected in every view shown; documented keys), confined to the parent's namespace; invalid rule sets are reported and never reach the sync hook; the customize hook is not asked twice for one UID and generation within the cache lifetime unless the calls overlap.",
    "deterministic simulation, reference selection model over reconstructed cache views"),
+ "C18": ("exploration", "§9 C18",
+   "The real SharedInformerFactory runs over the simulated API server; a seeded sequence (4-12 operations over up to 12 subscriptions on two resources) of subscribe, add handler with / without its own resync period, remove handlers, close, object create / edit / delete and clock advances is applied, with the in-flight LIST / WATCH requests of the informers interleaved by the kernel. Reference model: an open-subscription count per resource and a handler set per subscription. Oracle: no WATCH stream is live for a resource once its last subscription closed; exactly one is live (when idle) while one is open; each handler gets everything that was cached when it was added, every frame delivered to the process while it is registered, and nothing after its subscription removed it - whatever the other subscribers do.",
+   "deterministic simulation of an operation sequence against a reference model"),
+ "C20": ("exploration", "§9 C20",
+   "The two Metacontroller reconcilers run under a driver that plays controller-runtime's part (sequential Reconcile, per-item back-off, panics recovered); a CONFIG actor applies sequences of create / spec-changing update / no-op update / delete over one or two controller names, composite and decorator, with valid specs (incl. service+path webhooks and every ETag field combination) and unstartable ones (unknown parent / child resource, no hooks, webhook without url or service+path, parent CRD without status subresource), parents and children already in the cluster. Each spec version has its own hook URL, so instances are identifiable. After every operation and a probe edit of all parents: only the current version of a running controller answers, deleted or unstartable ones answer nothing and write nothing, the live WATCH streams are exactly those running controllers need (none left behind, none duplicated), a no-op update causes no LIST/WATCH, nothing panics.",
+   "deterministic simulation of a configuration history, instance identification by hook URL"),
 }
 
 NA = {
